@@ -597,6 +597,8 @@ func c08FirstInProcess(raw json.RawMessage, op *c08Op) (*c08Observation, error) 
 		return nil, err
 	}
 	cmd := exec.Command(os.Args[0], "exec", "C08")
+	// the race runtime sleeps one second at exit by default (atexit_sleep_ms); the child has a single goroutine
+	cmd.Env = append(os.Environ(), "GORACE=halt_on_error=1 atexit_sleep_ms=0")
 	cmd.Stdin = bytes.NewReader(append(line, '\n'))
 	var outb bytes.Buffer
 	cmd.Stdout = &outb
@@ -803,7 +805,7 @@ func c08Targeted(r *Rand, emit func(op any)) {
 	for di, d := range dirtiers {
 		for oi, o := range observers {
 			o.Prebuilt = (di+oi)%3 == 0
-			emit(c08Op{K: "hist", Mode: "seq", Sub: (di+oi)%7 == 0, Obs: o, Hist: d})
+			emit(c08Op{K: "hist", Mode: "seq", Sub: (di+oi)%2 == 0, Obs: o, Hist: d})
 		}
 		for k := 0; k < 4; k++ {
 			op := c08OneEncOp(r, k%2 == 1, 20, 0, 3, 6)
@@ -815,9 +817,9 @@ func c08Targeted(r *Rand, emit func(op any)) {
 }
 
 func c08Gen(r *Rand, tier string, emit func(op any)) {
-	nSeq, nConc, subEvery := 300, 36, 14
+	nSeq, nConc, subEvery := 700, 60, 3
 	if tier == "thorough" {
-		nSeq, nConc, subEvery = 12000, 700, 40
+		nSeq, nConc, subEvery = 12000, 800, 4
 	}
 	c08Targeted(r, emit)
 	for i := 0; i < nSeq; i++ {
